@@ -106,13 +106,17 @@ def getargs(function, n = 0):
 
 def getcallarg(function, args, kwargs):
     """
-    gets the first arg of a function
+    gets the first arg of a function: as passed, else its default (None if the function takes no args)
     """
     if len(args):
-        arg = args[0]
+        return args[0]
+    names = getargs(function)
+    if len(names) == 0:
+        return None
+    elif names[0] in kwargs:
+        return kwargs[names[0]]
     else:
-        arg = kwargs[getargs(function)[0]]
-    return arg
+        return argspec_defaults(function).get(names[0])
 
 
 def getcallargs(function, *args, **kwargs):
